@@ -62,7 +62,7 @@ class Exit:
 
     def own_formula(self, reject_lines):
         """Guard without the negations contributed by earlier *rejecting* early exits."""
-        gs = [g for g in self.guards if g.kind != "post"]
+        gs = [g for g in self.guards if g.kind not in ("post", "assert")]
         return F.mk_and([g.formula(self.subst) for g in gs])
 
 
@@ -238,7 +238,8 @@ def _check_loop_rung(ctx, fn, program, r, accepts, rejects, subst, oid, rej_if_l
                     continue
                 if inside or _guard_in(lp, g):
                     inside = True
-                    gs.append(g)
+                    if g.kind != "assert":      # a failed assertion aborts (never accepts): assume it holds
+                        gs.append(g)
             parts.append(F.mk_and([g.formula(subst) for g in gs]))
         rej = F.mk_or(parts)
         f, mapping, unmatched = _bind(rej, r.atoms)
